@@ -111,6 +111,9 @@ def case_strategy(draw: Any, carrier: str) -> Dict[str, Any]:
                                        max_size=2))
         app["chunks"] = draw(st.lists(st.text(alphabet="denied!\n", max_size=8), max_size=3))
     prior = draw(st.sampled_from([0, 0, 0, 1, 2])) if carrier == "h1" else 0
+    # ASGI types header lists as Iterable: applications hand over tuples, one-shot iterators ...
+    app["headers_as"] = draw(st.sampled_from(["list", "list", "tuple", "lists", "iter",
+                                              "generator", "map"]))
     return {"carrier": carrier, "sched": draw(st.integers(0, 999)), "handshake": hs, "app": app,
             "seg": draw(segmentation()),
             # ordinary requests served on the connection before the handshake, and the
@@ -148,7 +151,8 @@ def app_program(case: Dict[str, Any]) -> list:
         return [["recv"], ["send", {"type": "websocket.close"}], ["ws_loop"]]
     if d == "http":
         prog: list = [["recv"], ["send", {"type": "websocket.http.response.start",
-                                          "status": a["status"], "headers": a["headers"]}]]
+                                          "status": a["status"], "headers": a["headers"],
+                                          "$headers_as": a.get("headers_as", "list")}]]
         for c in a["chunks"]:
             prog.append(["send", {"type": "websocket.http.response.body", "body": c,
                                   "more_body": True}])
@@ -156,7 +160,8 @@ def app_program(case: Dict[str, Any]) -> list:
                               "more_body": False}])
         prog.append(["ws_loop"])
         return prog
-    msg: Dict[str, Any] = {"type": "websocket.accept", "headers": a["headers"]}
+    msg: Dict[str, Any] = {"type": "websocket.accept", "headers": a["headers"],
+                           "$headers_as": a.get("headers_as", "list")}
     if "subprotocol" in a:
         msg["subprotocol"] = a["subprotocol"]
     prog = [["recv"], ["send", msg]]
